@@ -13,16 +13,30 @@ Inductive ty :=
 | TFun (a b : ty)
 | TRec (r : rows)
 | TDict (t : ty)                 (* {_ : t} *)
-| TEnum (tags : list string)
+| TEnum (e : erows)             (* closed enum rows: bare tags and variants with a payload type *)
 | TVar (n : nat)
 | TForall (t : ty)
 with rows :=
 | RNil
-| RCons (f : string) (t : ty) (r : rows).
+| RCons (f : string) (t : ty) (r : rows)
+with erows :=
+| ENil
+| EBare (t : string) (e : erows)
+| EArg (t : string) (T : ty) (e : erows).
 
 Scheme ty_mut := Induction for ty Sort Prop
-with rows_mut := Induction for rows Sort Prop.
-Combined Scheme ty_rows_ind from ty_mut, rows_mut.
+with rows_mut := Induction for rows Sort Prop
+with erows_mut := Induction for erows Sort Prop.
+Combined Scheme ty_rows_ind from ty_mut, rows_mut, erows_mut.
+
+(* the row of tag [t]: None (absent), Some None (bare tag), Some (Some T) (variant carrying a T);
+   the first row for a tag shadows later ones *)
+Fixpoint erows_lookup (t : string) (e : erows) : option (option ty) :=
+  match e with
+  | ENil => None
+  | EBare u e' => if String.eqb t u then Some None else erows_lookup t e'
+  | EArg u T e' => if String.eqb t u then Some (Some T) else erows_lookup t e'
+  end.
 
 Fixpoint rows_lookup (f : string) (r : rows) : option ty :=
   match r with
@@ -41,7 +55,7 @@ Fixpoint shift (c : nat) (T : ty) : ty :=
   | TFun a b => TFun (shift c a) (shift c b)
   | TRec r => TRec (shift_rows c r)
   | TDict t => TDict (shift c t)
-  | TEnum tags => TEnum tags
+  | TEnum e => TEnum (shift_erows c e)
   | TVar n => if Nat.leb c n then TVar (S n) else TVar n
   | TForall t => TForall (shift (S c) t)
   end
@@ -49,6 +63,12 @@ with shift_rows (c : nat) (r : rows) : rows :=
   match r with
   | RNil => RNil
   | RCons f t r' => RCons f (shift c t) (shift_rows c r')
+  end
+with shift_erows (c : nat) (e : erows) : erows :=
+  match e with
+  | ENil => ENil
+  | EBare t e' => EBare t (shift_erows c e')
+  | EArg t T e' => EArg t (shift c T) (shift_erows c e')
   end.
 
 (* subst k S T: replace variable k by S (shifted under binders), decrement the variables above k *)
@@ -59,7 +79,7 @@ Fixpoint subst (k : nat) (S : ty) (T : ty) : ty :=
   | TFun a b => TFun (subst k S a) (subst k S b)
   | TRec r => TRec (subst_rows k S r)
   | TDict t => TDict (subst k S t)
-  | TEnum tags => TEnum tags
+  | TEnum e => TEnum (subst_erows k S e)
   | TVar n => match Nat.compare n k with
               | Eq => S
               | Lt => TVar n
@@ -71,6 +91,12 @@ with subst_rows (k : nat) (S : ty) (r : rows) : rows :=
   match r with
   | RNil => RNil
   | RCons f t r' => RCons f (subst k S t) (subst_rows k S r')
+  end
+with subst_erows (k : nat) (S : ty) (e : erows) : erows :=
+  match e with
+  | ENil => ENil
+  | EBare t e' => EBare t (subst_erows k S e')
+  | EArg t T e' => EArg t (subst k S T) (subst_erows k S e')
   end.
 
 (* first-order types: what a contract [Cast e T] can check in this fragment *)
@@ -80,13 +106,19 @@ Fixpoint first_order (T : ty) : bool :=
   | TArr t => first_order t
   | TRec r => first_order_rows r
   | TDict t => first_order t
-  | TEnum _ => true
+  | TEnum e => first_order_erows e
   | TFun _ _ | TVar _ | TForall _ => false
   end
 with first_order_rows (r : rows) : bool :=
   match r with
   | RNil => true
   | RCons _ t r' => first_order t && first_order_rows r'
+  end
+with first_order_erows (e : erows) : bool :=
+  match e with
+  | ENil => true
+  | EBare _ e' => first_order_erows e'
+  | EArg _ T e' => first_order T && first_order_erows e'
   end.
 
 (* ------------------------------------------------------------------------------------ terms *)
@@ -135,11 +167,23 @@ Inductive tm :=
 | Rec (fs : list (string * tm))          (* non-recursive record literal *)
 | Proj (e : tm) (f : string)
 | Tag (t : string)
-| Match (e : tm) (bs : list (string * tm)) (d : option tm)   (* tag patterns + optional wildcard *)
+| Variant (t : string) (e : tm)                              (* 't e *)
+| Match (e : tm) (bs : list (string * option string * tm)) (d : option tm)
+    (* arms: 't => b  or  't x => b ; plus an optional wildcard arm *)
 | Prim (o : prim)
 | AnnT (e : tm) (T : ty)                 (* (e : T) inside typed code *)
 | Untyped (u : tm)                       (* a closed piece of untyped code, of type Dyn *)
 | Cast (e : tm) (T : ty).                (* (e | T), T first-order: run-time check *)
+
+(* the first arm for tag [t] of the right shape (with / without a payload binder) *)
+Fixpoint find_branch {B : Type} (t : string) (arg : bool) (bs : list (string * option string * B))
+  : option (option string * B) :=
+  match bs with
+  | [] => None
+  | (u, x, b) :: bs' =>
+      if String.eqb t u && Bool.eqb arg (match x with Some _ => true | None => false end)
+      then Some (x, b) else find_branch t arg bs'
+  end.
 
 Fixpoint assoc {A : Type} (x : string) (l : list (string * A)) : option A :=
   match l with
@@ -158,6 +202,7 @@ Fixpoint plain (e : tm) : bool :=
   | Arr es => forallb plain es
   | Rec fs => forallb (fun fe => plain (snd fe)) fs
   | Proj e _ => plain e
+  | Variant _ e => plain e
   | Match e bs d => plain e && forallb (fun b => plain (snd b)) bs
                     && match d with Some b => plain b | None => true end
   | AnnT _ _ | Untyped _ => false
